@@ -1,6 +1,190 @@
-/- C05 — theorems follow -/
+/-
+C05 — no deadlock, no starved port, no starved direction.
+
+Proved here, for every size and configuration (component theorems of DESIGN §6 C05):
+ * `rr_fair`               round-robin (SP_CE): a requester that keeps requesting gets the grant after at most
+                           n − 1 enabled arbitrations, whatever the other requesters do
+ * `arbiter_moves_only_when_idle` (= C01.grant_stable_while_busy) the crossbar never takes a bank away from a
+                           master with commands in flight
+ * `anti_starvation_fires` with the timeout enabled, the direction timer reaches 0 after at most `timeout`
+                           cycles spent in one direction: the READ/WRITE state is left within `read_time` /
+                           `write_time` cycles once the other direction is waiting
+The composed latency bound `request_latency_bounded_full` (every offered command accepted and served within
+Bound(cfg)) is stated, **not proved**; the check measures every latency on implementation traces against
+Bound(cfg), and the known finding `c05-same-bank-lockout` shows the bound is false when one master
+monopolises a bank.
+-/
 import LitedramVerif.Model.Core
-import LitedramVerif.Spec.PortMemory
+import LitedramVerif.Props.C01
 namespace C05
-theorem placeholder : True := trivial
+open Hw
+
+/-! ### round-robin fairness -/
+
+/-- cyclic distance from `g` forward to `i` (0 when equal), for `g, i < n` -/
+def dist (n g i : Nat) : Nat := (i + n - g) % n
+
+theorem find_first (n g : Nat) (req : Nat → Bool) (k : Nat) (hk : k < n - 1)
+    (hreq : req ((g + 1 + k) % n) = true) :
+    ∃ j, j ≤ k ∧ (List.range (n - 1)).find? (fun k => req ((g + 1 + k) % n)) = some j := by
+  -- the list `range (n-1)` contains `k`, whose predicate holds, so `find?` returns some `j ≤ k`
+  have hsome : ((List.range (n - 1)).find? (fun k => req ((g + 1 + k) % n))).isSome := by
+    rw [List.find?_isSome]
+    exact ⟨k, List.mem_range.mpr hk, hreq⟩
+  obtain ⟨j, hj⟩ := Option.isSome_iff_exists.mp hsome
+  refine ⟨j, ?_, hj⟩
+  -- `j` is the first index with the predicate: every earlier index fails, so `j ≤ k`
+  refine Decidable.byContradiction fun hgt => ?_
+  have hlt : k < j := by omega
+  have hfail := List.find?_range_eq_some.mp hj
+  exact absurd hreq (by simpa using hfail.2.2 k hlt)
+
+/-- one enabled arbitration step brings the grant strictly closer to a requesting `i` (or onto it) -/
+theorem rr_closer (n g i : Nat) (req : Nat → Bool) (hn : 1 < n) (hg : g < n) (hi : i < n) (hne : g ≠ i)
+    (hreq : req i = true) :
+    dist n (rrNext n g req) i < dist n g i := by
+  -- i = (g + 1 + k) % n with k = dist - 1 < n - 1
+  have hd : 0 < dist n g i := by
+    unfold dist
+    by_cases h : g < i
+    · have : (i + n - g) % n = i - g := by
+        have : i + n - g = (i - g) + n := by omega
+        rw [this, Nat.add_mod_right, Nat.mod_eq_of_lt (by omega)]
+      omega
+    · have : (i + n - g) % n = i + n - g := Nat.mod_eq_of_lt (by omega)
+      omega
+  have hdn : dist n g i < n := Nat.mod_lt _ (by omega)
+  have hik : (g + 1 + (dist n g i - 1)) % n = i := by
+    unfold dist at *
+    by_cases h : g < i
+    · have e : (i + n - g) % n = i - g := by
+        have : i + n - g = (i - g) + n := by omega
+        rw [this, Nat.add_mod_right, Nat.mod_eq_of_lt (by omega)]
+      rw [e]; have : g + 1 + (i - g - 1) = i := by omega
+      rw [this, Nat.mod_eq_of_lt hi]
+    · have e : (i + n - g) % n = i + n - g := Nat.mod_eq_of_lt (by omega)
+      rw [e]; have : g + 1 + (i + n - g - 1) = i + n := by omega
+      rw [this, Nat.add_mod_right, Nat.mod_eq_of_lt hi]
+  obtain ⟨j, hjk, hfind⟩ := find_first n g req (dist n g i - 1) (by omega) (by rw [hik]; exact hreq)
+  unfold rrNext
+  rw [hfind]
+  -- new grant = (g+1+j) % n with j ≤ dist-1: distance to i is dist - 1 - j
+  show dist n ((g + 1 + j) % n) i < dist n g i
+  have hnew : dist n ((g + 1 + j) % n) i = dist n g i - 1 - j := by
+    unfold dist at *
+    by_cases h : g < i
+    · have e : (i + n - g) % n = i - g := by
+        have : i + n - g = (i - g) + n := by omega
+        rw [this, Nat.add_mod_right, Nat.mod_eq_of_lt (by omega)]
+      rw [e] at hjk ⊢
+      have hlt : g + 1 + j < n := by omega
+      rw [Nat.mod_eq_of_lt hlt]
+      have : i + n - (g + 1 + j) = (i - g - 1 - j) + n := by omega
+      rw [this, Nat.add_mod_right, Nat.mod_eq_of_lt (by omega)]
+    · have e : (i + n - g) % n = i + n - g := Nat.mod_eq_of_lt (by omega)
+      rw [e] at hjk ⊢
+      by_cases hw : g + 1 + j < n
+      · rw [Nat.mod_eq_of_lt hw, Nat.mod_eq_of_lt (by omega)]; omega
+      · have : (g + 1 + j) % n = g + 1 + j - n := by
+          rw [Nat.mod_eq_sub_mod (by omega), Nat.mod_eq_of_lt (by omega)]
+        rw [this]
+        have : i + n - (g + 1 + j - n) = (i + n - g - 1 - j) + n := by omega
+        rw [this, Nat.add_mod_right, Nat.mod_eq_of_lt (by omega)]
+  omega
+
+/-- the grant stays in range -/
+theorem rrNext_lt (n g : Nat) (req : Nat → Bool) (hn : 0 < n) (hg : g < n) : rrNext n g req < n := by
+  unfold rrNext; split
+  · exact Nat.mod_lt _ hn
+  · exact hg
+
+theorem dist_self (n i : Nat) (hn : 0 < n) : dist n i i = 0 := by
+  unfold dist
+  have : i + n - i = n := by omega
+  rw [this, Nat.mod_self]
+
+theorem dist_zero (n g i : Nat) (hg : g < n) (hi : i < n) (h : dist n g i = 0) : g = i := by
+  unfold dist at h
+  by_cases hle : g ≤ i
+  · have e : i + n - g = (i - g) + n := by omega
+    rw [e, Nat.add_mod_right, Nat.mod_eq_of_lt (by omega)] at h
+    omega
+  · rw [Nat.mod_eq_of_lt (by omega)] at h; omega
+
+/-- `d` enabled arbitrations with request vectors `reqs k`; once `i` holds the grant we stop looking -/
+def rrRun (n i : Nat) (reqs : Nat → Nat → Bool) : Nat → Nat → Nat
+  | 0, g => g
+  | k + 1, g => rrRun n i reqs k (if g = i then g else rrNext n g (reqs k))
+
+/-- **Round-robin fairness**: a requester `i` that keeps requesting holds the grant after at most
+`dist n g i ≤ n − 1` enabled arbitrations, whatever the request vectors `reqs k` of the others are. -/
+theorem rr_fair (n : Nat) (hn : 1 < n) (i : Nat) (hi : i < n) (reqs : Nat → Nat → Bool) (hreq : ∀ k, reqs k i = true) :
+    ∀ (d g : Nat), g < n → dist n g i ≤ d → rrRun n i reqs d g = i := by
+  intro d
+  induction d with
+  | zero =>
+    intro g hg hd
+    exact dist_zero n g i hg hi (by omega)
+  | succ d ih =>
+    intro g hg hd
+    simp only [rrRun]
+    by_cases hgi : g = i
+    · simp only [hgi, if_true]
+      exact ih i hi (by rw [dist_self n i (by omega)]; omega)
+    · simp only [hgi, if_false]
+      have hc := rr_closer n g i (reqs d) hn hg hi hgi (hreq d)
+      exact ih _ (rrNext_lt n g (reqs d) (by omega) hg) (by omega)
+
+/-- and the distance is at most `n − 1`: the bound of `rr_fair` is `n − 1` arbitrations -/
+theorem dist_le (n g i : Nat) (hn : 0 < n) : dist n g i ≤ n - 1 := by
+  unfold dist; have := Nat.mod_lt (i + n - g) hn; omega
+
+/-! ### anti-starvation timers -/
+open Controller in
+/-- with the timeout enabled, staying `k ≤ timeout − 1` cycles in the direction (`en`) brings the timer from its
+reload value `timeout − 1` down to `timeout − 1 − k`; so after `timeout − 1` cycles `max_time` is raised -/
+theorem anti_starvation_countdown (timeout : Nat) (ht : 0 < timeout) (k : Nat) (hk : k ≤ timeout - 1) :
+    (Nat.rec (motive := fun _ => Nat) (timeout - 1) (fun _ t => (antiStarve timeout t true).1) k) = timeout - 1 - k := by
+  induction k with
+  | zero => rfl
+  | succ k ih =>
+    simp only []
+    rw [ih (by omega)]
+    have h0 : (timeout == 0) = false := by simpa using (by omega : timeout ≠ 0)
+    have hne : ¬ (timeout - 1 - k = 0) := by omega
+    simp [antiStarve, h0, hne]
+    omega
+
+open Controller in
+/-- **Anti-starvation fires**: after `timeout − 1` cycles in one direction the timer reads 0, i.e. `max_time` is
+up and the FSM leaves READ (resp. WRITE) as soon as the other direction has a request waiting -/
+theorem anti_starvation_fires (timeout : Nat) (ht : 0 < timeout) :
+    (antiStarve timeout (Nat.rec (motive := fun _ => Nat) (timeout - 1) (fun _ t => (antiStarve timeout t true).1) (timeout - 1)) true).2 = true := by
+  rw [anti_starvation_countdown timeout ht (timeout - 1) (Nat.le_refl _)]
+  have h0 : (timeout == 0) = false := by simpa using (by omega : timeout ≠ 0)
+  simp [antiStarve, h0]
+
+/-- the crossbar never takes a bank away from a master with commands offered or in flight -/
+theorem arbiter_moves_only_when_idle (c : Crossbar.Cfg) (s : Crossbar.State) (cb : Crossbar.Comb) (fb : Array Crossbar.BankFb)
+    (w r : Array Bool) (nb : Nat) (hnb : nb < c.nbanks)
+    (hbusy : (cb.bankReqs[nb]!).valid = true ∨ (fb[nb]!).lock = true) :
+    (Crossbar.step c s cb fb w r).grants[nb]! = s.grants[nb]! :=
+  C01.grant_stable_while_busy c s cb fb w r nb hnb hbusy
+
+/-- the explicit bound used by the check (mirrors `coremem.latency_bound`) is not reproduced here; the
+composed statement — **not proved**, and false without the side condition that no other master monopolises
+the same bank (known finding `c05-same-bank-lockout`): there is a bound depending only on the configuration
+within which every offered command is accepted. -/
+def request_latency_bounded_full : Prop :=
+  ∀ (c : Core.Cfg), ∃ bound : Nat, ∀ (pre post : List (Array Crossbar.MasterIn)) (p : Nat), p < c.xb.nmasters →
+    post.length = bound → (∀ ms ∈ post, (ms[p]!).cmdValid = true) →
+    ∃ k, k < bound ∧
+      let s := pre.foldl (fun st ms => (Core.step c st ms).1) (Core.init c)
+      let sk := (post.take k).foldl (fun st ms => (Core.step c st ms).1) s
+      ((Core.step c sk (post.getD k #[])).2.1[p]!).cmdReady = true
+
+/-! ### non-vacuity -/
+example : rrRun 4 2 (fun _ j => j == 2 || j == 3) 3 3 = 2 := by decide
+example : dist 4 3 2 = 3 := by decide
+
 end C05
